@@ -42,7 +42,9 @@ def serves(c):
         if needs_change(c):
             return False
         if c["platform"] == "sgx":
-            mode = "signer"                # unlocking the enclave is what leaves bootloader mode
+            # unlocking the enclave is what leaves bootloader mode - what it reports afterwards is what
+            # counts (a signer, unless the run says otherwise)
+            mode = c.get("sgx_post_unlock", "signer")
         else:
             mode = c["post_exit"]
     if mode != "signer":
